@@ -358,6 +358,9 @@ func genC14(rng *rand.Rand, n int, thorough bool, emit func(string)) {
 				doc = jsonQuote(rng, v)
 			}
 			emit("FLD json-" + sfx + " " + hxs(doc))
+			if i%2 == 0 {
+				emit("GFLD json-" + sfx + " " + hxs(doc))
+			}
 		case 4:
 			doc := pick(rng, jsonDocs...)
 			if rng.Intn(2) == 0 {
@@ -366,8 +369,10 @@ func genC14(rng *rand.Rand, n int, thorough bool, emit func(string)) {
 			emit("FLD jsonstd-" + sfx + " " + hxs(doc))
 		case 5:
 			emit("FLD scan-" + sfx + " bytes " + hxs(v))
+			emit("GFLD scan-" + sfx + " bytes " + hxs(v))
 		case 6:
 			emit("FLD scan-" + sfx + " string " + hxs(v))
+			emit("GFLD scan-" + sfx + " string " + hxs(v))
 		case 7:
 			emit("FLD scan-" + sfx + " " + pick(rng, "nil", "nil", "int", "float", "bool", "time") + " -")
 		case 8, 9:
